@@ -118,6 +118,44 @@ def rule_H4(ctx):
                        extra={'props': ['C02', 'C15']})
             else:
                 r.ok(f'{name} whole-byte guard')
+    # struct format strings an integer getter/setter can use (directly or through a module-level table it names)
+    # must have the dtype's signedness, byte order and size
+    import re as _re
+    import struct as _struct
+    for e in m.registry:
+        if e['return_type'] != 'int' or e['variable_length']:
+            continue
+        for role in ('set_fn', 'get_fn'):
+            f = m.func_by_dotted(e[role])
+            fmts = []
+            for x in own_walk(f.node):
+                if isinstance(x, ast.Constant) and isinstance(x.value, str):
+                    fmts.append((None, x.value, x))
+                if isinstance(x, ast.Name) and x.id in m.modglobals[f.mod]:
+                    gv = m.modglobals[f.mod][x.id]
+                    if isinstance(gv, ast.Dict):
+                        for k, v in zip(gv.keys, gv.values):
+                            if isinstance(v, ast.Constant) and isinstance(v.value, str):
+                                fmts.append((k.value if isinstance(k, ast.Constant) else None, v.value, x))
+            for key, fmt, node in fmts:
+                mt = _re.fullmatch(r'([<>=@!]?)([bBhHiIlLqQ])', fmt)
+                if not mt:
+                    continue
+                pre, code = mt.groups()
+                problems = []
+                if code.islower() != e['is_signed']:
+                    problems.append(f"code '{code}' is {'signed' if code.islower() else 'unsigned'} but '{e['name']}' is {'signed' if e['is_signed'] else 'unsigned'}")
+                if e['name'].endswith('le') and pre not in ('<',):
+                    problems.append(f"prefix '{pre}' is not little-endian")
+                if (e['name'].endswith('be') or e['name'] in ('int', 'uint')) and pre not in ('>', '!'):
+                    problems.append(f"prefix '{pre}' is not big-endian")
+                if isinstance(key, int) and _struct.calcsize('=' + code) * 8 != key:
+                    problems.append(f"'{code}' is {_struct.calcsize('=' + code) * 8} bits, table key says {key}")
+                if problems:
+                    r.fail(f.key, f"struct format '{fmt}'" + (f' for {key} bits' if key is not None else ''), f"{f.name} can use struct format '{fmt}': "
+                           + '; '.join(problems), loc=f.loc(node))
+                else:
+                    r.ok(f'{f.key}:{fmt}')
     il = helpers.get('intle2bitstore')
     if il is None:
         raise AnalysisError('anchor vanished: intle2bitstore')
@@ -254,4 +292,102 @@ def rule_DELEG(ctx):
     if bs is None:
         raise AnalysisError('anchor vanished: BitStore.tobytes')
     r.ok('BitStore.tobytes', trivial=True)
+    return r
+
+
+def rule_PK(ctx):
+    """pack / token strings / unpack share one parser and one token builder; value-count mismatches raise CreationError."""
+    m = ctx.m
+    r = RuleResult('PK', 'pack, string construction and unpack share the token parser/builder; count mismatch and parse errors raise CreationError')
+    pk = m.funcs.get('methods:pack')
+    sa = m.funcs.get('bits:Bits._setauto_no_length_or_offset')
+    rl = m.funcs.get('bits:Bits._readlist')
+    tp = m.funcs.get('utils:tokenparser')
+    if None in (pk, sa, rl, tp):
+        raise AnalysisError('anchor vanished: pack / _setauto_no_length_or_offset / _readlist / tokenparser')
+    # the string branch of the auto-initialiser
+    str_call = None
+    for x in own_walk(sa.node):
+        if isinstance(x, ast.If) and ast.unparse(x.test) == 'isinstance(s, str)':
+            for y in ast.walk(x.body[0]):
+                if isinstance(y, ast.Call):
+                    str_call = y
+    if str_call is None:
+        raise AnalysisError('string branch of the auto-initialiser not found')
+    fa = ctx.R.analyse(sa, 'Bits')
+    roots = [ctx.node(g, c) for cs in fa.calls if cs.node is str_call for (g, c) in cs.targets]
+    if not roots:
+        raise AnalysisError('string-route callee not resolved')
+    reach_str = {n[0] for n in ctx.reachable(roots)}
+    reach_pack = {n[0] for n in ctx.reachable([ctx.node(pk, None)])}
+    reach_unpack = {n[0] for n in ctx.reachable([ctx.node(rl, 'Bits')])}
+    for name, reach in (('string construction', reach_str), ('pack', reach_pack)):
+        for need in ('utils:tokenparser', 'bitstore_helpers:bitstore_from_token'):
+            if need not in reach:
+                r.fail('methods:pack' if name == 'pack' else sa.key, f'{name}: {need}', f"{name} no longer goes through {need.split(':')[1]}: a token string with "
+                       'embedded values and pack() with separate values can build different bits', loc='bitstring/')
+            else:
+                r.ok(f'{name}->{need}', {'instance': name, 'uses': need})
+    def direct_callees(f, c):
+        return {g.key for cs in ctx.R.analyse(f, c).calls for (g, _) in cs.targets}
+    for name, reach in (('tokenparser', direct_callees(tp, None)), ('unpack/readlist', direct_callees(rl, 'Bits'))):
+        if 'utils:preprocess_tokens' not in reach and 'utils:tokenparser' not in reach:
+            r.fail(tp.key if name == 'tokenparser' else rl.key, f'{name}: preprocess_tokens', f'{name} no longer uses preprocess_tokens: brackets, multipliers and '
+                   'struct codes expand differently when packing and when unpacking', loc='bitstring/')
+        else:
+            r.ok(f'{name}->preprocess_tokens')
+    # too few values
+    nexts = [x for x in own_walk(pk.node) if isinstance(x, ast.Call) and isinstance(x.func, ast.Name) and x.func.id == 'next']
+    tries = [x for x in own_walk(pk.node) if isinstance(x, ast.Try)]
+
+    def handler_for(call, exc):
+        for t in tries:
+            if any(call is y for b in t.body for y in ast.walk(b)):
+                for h in t.handlers:
+                    if exc in G.handler_names(h):
+                        return t, h
+        return None, None
+    few = many = False
+    for nx in nexts:
+        t, h = handler_for(nx, 'StopIteration')
+        if h is None:
+            continue
+        if 'CreationError' in G.raises_in(h.body) or 'ValueError' in G.raises_in(h.body):
+            few = True
+        elif any(isinstance(y, ast.Return) for y in ast.walk(h)):
+            # "good, all values used": what follows the try must raise
+            after = [s for s in pk.node.body if s.lineno > t.end_lineno]
+            if any(isinstance(s, ast.Raise) for s in after) and set(G.raises_in(after)) <= {'CreationError', 'ValueError'}:
+                many = True
+    if not few:
+        r.fail(pk.key, 'too few values -> CreationError', 'running out of values while packing must raise CreationError (StopIteration must not escape or be swallowed)',
+               loc=pk.loc())
+    else:
+        r.ok('too few')
+    if not many:
+        r.fail(pk.key, 'too many values -> CreationError', 'values left over after the last token must raise CreationError', loc=pk.loc())
+    else:
+        r.ok('too many')
+    conv = False
+    for t in tries:
+        if any(isinstance(y, ast.Call) and ast.unparse(y.func).endswith('tokenparser') for b in t.body for y in ast.walk(b)):
+            for h in t.handlers:
+                if 'ValueError' in G.handler_names(h) and 'CreationError' in G.raises_in(h.body):
+                    conv = True
+    if not conv:
+        r.fail(pk.key, 'format errors -> CreationError', 'a malformed format string must surface as CreationError', loc=pk.loc())
+    else:
+        r.ok('parse errors converted')
+    # concatenation in token order; reversed only under lsb0
+    revs = [x for x in own_walk(pk.node) if isinstance(x, ast.Call) and isinstance(x.func, ast.Attribute) and x.func.attr == 'reverse']
+    for x in revs:
+        guarded = any(isinstance(i, ast.If) and 'lsb0' in ast.unparse(i.test) and any(x is y for b in i.body for y in ast.walk(b)) for i in own_walk(pk.node))
+        if not guarded:
+            r.fail(pk.key, x, 'the packed pieces are reversed unconditionally: the bits for "f1, f2" are no longer those of f1 followed by those of f2', loc=pk.loc(x))
+        else:
+            r.ok(x)
+    loops = [x for x in own_walk(pk.node) if isinstance(x, ast.For) and any(isinstance(y, ast.AugAssign) and isinstance(y.op, ast.Add) for y in ast.walk(x))]
+    if not loops:
+        raise AnalysisError('pack: concatenation loop not recognised (needs a human)')
+    r.ok('concatenation loop')
     return r
